@@ -475,7 +475,7 @@ class Program:
     def history_a(self, slot):
         return ['%s %s' % (slot, t) for t, _ in self.ops]
 
-    def history_b(self, slot, rng):
+    def history_b(self, slot, rng, fill=None):
         """Same ops in a random topological order, with unrelated allocations interleaved."""
         n = len(self.ops)
         indeg = [len(d) for _, d in self.ops]
@@ -485,6 +485,9 @@ class Program:
                 users[j].append(i)
         ready = [i for i in range(n) if indeg[i] == 0]
         out = ['%s scramble %d' % (slot, rng.randint(1, 10 ** 6)), '%s junk %d' % (slot, rng.randint(1, 9))]
+        if fill is not None:
+            # this Lexicon has interned a block's worth of unrelated words: the graph's own words straddle the end of that block
+            out.append('%s fill %d' % (slot, fill))
         while ready:
             i = ready.pop(rng.randrange(len(ready)))
             out.append('%s %s' % (slot, self.ops[i][0]))
@@ -496,7 +499,7 @@ class Program:
                 indeg[u] -= 1
                 if indeg[u] == 0:
                     ready.append(u)
-        assert len([o for o in out if ' junk ' not in o and ' scramble ' not in o]) == n
+        assert len([o for o in out if ' junk ' not in o and ' scramble ' not in o and ' fill ' not in o]) == n
         return out
 
 
@@ -582,13 +585,15 @@ class ProbeOutput:
         ln = self.next()
         if ln is None:
             return None
+        if w[0] == 'links':
+            return {'kind': 'links' if ln.startswith('links') else 'error', 'lines': [ln]}
         return {'kind': 'ok' if ln in ('ok',) or ln.startswith('dumpeq=') else 'error', 'lines': [ln]}
 
 
 def program_script(prog, rng, reps=2):
     """Commands for one program: build it twice (histories A and B), then for every root: dump, compare dumps, print with
     fresh printers (with / without locations, twice each, both lexicons), dump again."""
-    cmds = ['new A'] + prog.history_a('A') + ['new B'] + prog.history_b('B', rng)
+    cmds = ['new A'] + prog.history_a('A') + ['new B'] + prog.history_b('B', rng) + ['links A', 'links B']
     for root, route in prog.roots:
         cmds.append('dump A %s' % root)
         cmds.append('dumpeq A %s B %s' % (root, root))
@@ -650,6 +655,7 @@ def judge_group(cmds, answers, crash, names):
     findings = []
     requests = []
     dumps = {}                       # (slot, var) -> dump lines (first one)
+    links_before = {}                # slot -> `links` answer before anything was printed
     prints = {}                      # (var, route, opts) -> [(slot, line)]
     requested = set()
     if crash:
@@ -668,6 +674,17 @@ def judge_group(cmds, answers, crash, names):
                     findings.append(('graph-changed', 'the graph under %s %s is not what it was before printing' % key))
             else:
                 dumps[key] = a['lines']
+        elif w[0] == 'links':
+            # asked before the first print / dump and after the last: reading a graph (printing it, dumping it) changes nothing in it
+            if w[1] in links_before:
+                if links_before[w[1]] != a['lines']:
+                    old, new = links_before[w[1]][0].split(), a['lines'][0].split()
+                    diff = [(x, y) for x, y in zip(old, new) if x != y][:3]
+                    findings.append(('graph-changed', 'lexicon %s: what the declarations say about their masters / definitions / declaration sets / regions '
+                                     'is not what it was before the graph was printed: %s (name:master/definition/|decl_set|/home/lexical)' % (
+                                         w[1], '; '.join('%s became %s' % d for d in diff))))
+            else:
+                links_before[w[1]] = a['lines']
         elif w[0] == 'dumpeq':
             pass
         elif w[0] in ('print', 'pos', 'level') and a['kind'] == 'print':
